@@ -110,7 +110,7 @@ def candidates(m, allowed):
     add('tile', not un)
     add('cache_lazy', m.indexable)
     add('cache_eager', not hr and not un and m.cap_items != 'opt' and not (m.taint and m.cap_items != 'req'))
-    add('catch', m.indexable and m.sized)
+    add('catch', m.fidx and m.sized)
     add('copy')
     add('prefetch', True)
     add('prefetch1', True)
